@@ -178,7 +178,14 @@ Seps ==
     SepRec(" // x y\n ", 9, 1, 1, TRUE, "// x y", 1, 6, 0, 6),
     SepRec("/* c */", 7, 0, 7, FALSE, "/* c */", 0, 7, 0, 7),
     SepRec(" /* a\nb */ ", 11, 1, 5, TRUE, "/* a\nb */", 1, 9, 1, 4),
-    SepRec("/**/", 4, 0, 4, FALSE, "/**/", 0, 4, 0, 4) }
+    SepRec("/**/", 4, 0, 4, FALSE, "/**/", 0, 4, 0, 4),
+    (* Ref (lexical rules): comments do not nest - a block comment ends at the first "*/", whatever it  *)
+    (* contains; a line comment ends at the line feed, whatever it contains                             *)
+    SepRec("/* a /* b */", 12, 0, 12, FALSE, "/* a /* b */", 0, 12, 0, 12),
+    SepRec("/* // */", 8, 0, 8, FALSE, "/* // */", 0, 8, 0, 8),
+    SepRec("/***/", 5, 0, 5, FALSE, "/***/", 0, 5, 0, 5),
+    SepRec("// a /* b\n", 10, 1, 0, FALSE, "// a /* b", 0, 9, 0, 9),
+    SepRec("//\n", 3, 1, 0, FALSE, "//", 0, 2, 0, 2) }
 
 Wordy(k) == k \in {"kw", "word", "id", "int", "mod"}
 
